@@ -81,7 +81,21 @@ def r1(prog, run):
             run.violation(rid, 'SendSuccess-true#%s' % top.qname, f.loc(i), '%s reports a stanza as acknowledged outside the ack handler' % top.display())
             continue
         atoms = [(f.fmt(c), p) for c, p in f.atomic_assertions_at(i)]
-        ok = any(('QMap' in t or 'key()' in t) and '::key()' in t and '<= p0' in t and p is True for t, p in atoms)
+        ok = False
+        for c, p in f.atomic_assertions_at(i):
+            bo = f.binop(f.skip(c))
+            if not bo or not isinstance(p, bool) or bo[0] not in ('<', '<=', '>', '>='):
+                continue
+            lt, rt = f.fmt(bo[1]), f.fmt(bo[2])
+            key_left = '::key()' in lt and rt == 'p0'
+            key_right = '::key()' in rt and lt == 'p0'
+            if not (key_left or key_right):
+                continue
+            op = bo[0] if key_left else {'<': '>', '>': '<', '<=': '>=', '>=': '<='}[bo[0]]     # as "key OP h"
+            if not p:
+                op = {'<': '>=', '>=': '<', '>': '<=', '<=': '>'}[op]
+            if op == '<=':
+                ok = True
         if ok:
             run.ok(rid, f.loc(i), 'acknowledged report control-dependent on it.key() <= h')
         else:
@@ -108,14 +122,18 @@ def r1(prog, run):
                       cfgx.describe_path(fn, exits[bad[0]]))
     else:
         run.ok(rid, fn.loc(), 'every acknowledged report is followed by the erase of that entry before the next one')
-    # handleAcknowledgement / onResumed feed the server's h
+    # the ack handler is fed the h of <a/> unchanged
     run.instance(rid)
-    ha = prog.fn(SAM + '::handleAcknowledgement')
-    args = [ha.fmt(n['args'][0]) for i, n in ha.calls(SAM + '::setAcknowledgedSequenceNumber')]
-    if args == ['p0.seqNo']:
-        run.ok(rid, ha.loc(), '<a h=…/> value passed unchanged to setAcknowledgedSequenceNumber')
+    feeds = []
+    for f in prog.fns.values():
+        if (f.record or '') != SAM or f.qname == SAM + '::setAcknowledgedSequenceNumber':
+            continue
+        for i, n in f.calls(SAM + '::setAcknowledgedSequenceNumber'):
+            feeds.append((f, i, f.fmt(n['args'][0])))
+    if feeds and all(t.endswith('.seqNo') and ('SmAck::fromDom(p0)' in t or t == 'p0.seqNo') for _, _, t in feeds):
+        run.ok(rid, feeds[0][0].loc(feeds[0][1]), '<a h=…/> value passed unchanged to setAcknowledgedSequenceNumber')
     else:
-        run.violation(rid, 'handleAcknowledgement#h', ha.loc(), 'the handled count passed on is %s' % args)
+        run.violation(rid, 'handleAcknowledgement#h', fn.loc(), 'the handled count passed on is %s' % [t[:60] for _, _, t in feeds])
 
 
 def r2(prog, run):
@@ -191,15 +209,18 @@ def r3(prog, run):
             run.violation(rid, '%s#routes' % callee, prog.fn(callee).loc(), 'negotiation route(s) %s no longer reach %s' % (sorted(want - callers), callee))
     # <resume/> carries the inbound counter at both sites
     for qn in (C2S + '::requestResume', C2S + '::onSasl2Authenticate'):
-        f = prog.fn(qn)
+        f0 = prog.fn(qn)
         run.instance(rid)
         found = False
-        for i, n in enumerate(f.nodes):
-            t = (n.get('t') or '') + (n.get('cls') or '')
-            if n['k'] in ('initlist', 'construct') and t.endswith('SmResume'):
-                items = n.get('elems') or n.get('args') or []
-                if items and 'lastIncomingSequenceNumber()' in f.fmt(items[0]):
-                    found = True
+        scope = [f0] + [g for i, n in f0.calls() for g in prog.callee_fns(f0, n) if (g.record or '') == C2S and g.entry is not None]
+        for f in scope:
+            for i, n in enumerate(f.nodes):
+                t = (n.get('t') or '') + (n.get('cls') or '')
+                if n['k'] in ('initlist', 'construct') and t.endswith('SmResume'):
+                    items = n.get('elems') or n.get('args') or []
+                    if items and 'lastIncomingSequenceNumber()' in f.fmt(items[0]):
+                        found = True
+        f = f0
         if found:
             run.ok(rid, f.loc(), '%s: <resume h=…/> taken from lastIncomingSequenceNumber()' % qn.split('::')[-1])
         else:
@@ -226,6 +247,8 @@ def r4(prog, run):
                         key = f.nodes[f.skip(n['args'][0])]
                         ev = ('insert', key['k'] == 'un' and key['op'] == 'pre++' and f.nodes[f.skip(key['e'])].get('f') == OUT)
                     return st + (ev,) if ev not in st else None
+                if f.cname(n) == 'std::exchange' and n.get('args') and f.nodes[f.skip(n['args'][0])].get('f') == UNACK:
+                    return st + (('clear',),) if ('clear',) not in st else None
                 if f.cname(n).endswith('::sendData'):
                     ev = ('send', f.fmt(n['args'][0], inline=False))
                     return st + (ev,) if ev not in st else None
@@ -280,7 +303,11 @@ def r4(prog, run):
                 r = fn.nodes[fn.skip(t['range'])]
                 if r['k'] == 'var' and r.get('vk') == 'local':
                     d = fn.defs().get(r['decl'])
-                    if d and d.get('init') is not None and fn.nodes[fn.skip(d['init'])].get('f') == UNACK and not d.get('ref'):
+                    init = fn.nodes[fn.skip(d['init'])] if d and d.get('init') is not None else None
+                    if init is not None and init.get('f') == UNACK and not d.get('ref'):
+                        copy_ok = True
+                    if init is not None and init['k'] == 'call' and fn.cname(init) in ('std::exchange', 'std::move') and init.get('args') \
+                            and fn.nodes[fn.skip(init['args'][0])].get('f') == UNACK and not d.get('ref'):
                         copy_ok = True
             if not copy_ok:
                 problems.append('the renumbering loop does not iterate a saved copy of the map')
@@ -353,15 +380,19 @@ def r5(prog, run):
             run.ok(rid, f.loc(i), 'inbound counter written by %s (%s)' % (top.qname.split('::')[-1], h), nontrivial=False)
         else:
             run.violation(rid, 'inbound-counter-writer#%s' % top.qname, f.loc(i), '%s modifies the inbound stanza counter' % top.display())
-    sa = prog.fn(SAM + '::sendAcknowledgement')
     run.instance(rid)
     ok = False
-    for i, n in enumerate(sa.nodes):
-        t = (n.get('t') or '') + (n.get('cls') or '')
-        if n['k'] in ('initlist', 'construct') and t.endswith('SmAck'):
-            items = n.get('elems') or n.get('args') or []
-            if items and sa.nodes[sa.skip(items[0])].get('f') == INC:
-                ok = True
+    sa = hs
+    for g in prog.fns.values():
+        if (g.record or '') != SAM:
+            continue
+        for i, n in enumerate(g.nodes):
+            t = (n.get('t') or '') + (n.get('cls') or '')
+            if n['k'] in ('initlist', 'construct') and t.endswith('SmAck'):
+                items = n.get('elems') or n.get('args') or []
+                if items and g.nodes[g.skip(items[0])].get('f') == INC:
+                    ok = True
+                    sa = g
     if ok:
         run.ok(rid, sa.loc(), '<a h=…/> carries m_lastIncomingSequenceNumber')
     else:
